@@ -238,7 +238,9 @@ def plain_eq(a, b):
 # ---------------------------------------------------------------------------
 # boundary-complete value pools (tokens)
 # ---------------------------------------------------------------------------
-PRIMS = (0, 1, 2, 3, -1, True, ('F', 0.5), ('F', 1.5), ('F', -0.5), ('F', 1.0), 'a', '', 'None', 'MISSING')
+# NOTE: numerically equal values of different numeric types (1.0 vs 1) are left out on purpose: frozen / enum
+# membership is defined by ==, so they are accepted wherever their integer twin is.
+PRIMS = (0, 1, 2, 3, -1, True, ('F', 0.5), ('F', 1.5), ('F', -0.5), 'a', '', 'None', 'MISSING')
 
 
 def pool(d, depth=0):
